@@ -36,6 +36,10 @@ func sendmsg(fd int, bs [][]byte, ivs []syscall.Iovec, zerocopy bool) (n int, er
 	if iovLen == 0 {
 		return 0, nil
 	}
+	if e := verifFault(vfltSendmsg, fd); e != 0 {
+		resetIovecs(bs, ivs[:iovLen])
+		return -1, e
+	}
 	msghdr := syscall.Msghdr{
 		Iov:    &ivs[0],
 		Iovlen: uint64(iovLen),
